@@ -62,7 +62,7 @@ def run_property(pid, spec, tier, seed, deadline=None):
     t0 = time.time()
     known = load_known()
     os.makedirs(os.path.join(VERIF, "out", "replay"), exist_ok=True)
-    os.makedirs(os.path.join(VERIF, "evidence"), exist_ok=True)
+    EVD = os.environ.get("VERIF_EVIDENCE_DIR", os.path.join(VERIF, "evidence")); os.makedirs(EVD, exist_ok=True)
     runs = spec["runs"](tier)
     total_deadline = deadline if deadline is not None else (int(os.environ.get("VERIF_DEADLINE_S", "1200")) if tier == "thorough" else int(os.environ.get("VERIF_QUICK_DEADLINE_S", "600")))
     results = []
@@ -120,7 +120,7 @@ def run_property(pid, spec, tier, seed, deadline=None):
     finally:
         shutil.rmtree(scratch, ignore_errors=True)
     ev = make_evidence(pid, spec, tier, seed, results, violations, known_hits, time.time() - t0)
-    json.dump(ev, open(os.path.join(VERIF, "evidence", pid + ".json"), "w"), indent=1)
+    json.dump(ev, open(os.path.join(EVD, pid + ".json"), "w"), indent=1)
     for l in lines:
         print(l)
     cov = ev["coverage"]
